@@ -78,7 +78,7 @@ where
 }
 
 macro_rules! fill_impl {
-    ($ty: ty) => {
+    ($ty: ty, $x: ident => $digits: expr) => {
         impl<const N: usize> Fill for crate::random::Slice<$ty> {
             #[inline(never)]
             fn try_fill<R: Rng + ?Sized>(&mut self, rng: &mut R) -> Result<(), Error> {
@@ -89,8 +89,11 @@ macro_rules! fill_impl {
                             self.0.len() * core::mem::size_of::<$ty>(),
                         )
                     })?;
-                    for x in &mut self.0 {
-                        *x = x.to_le();
+                    // the digits are stored least significant first on every target, so only the bytes within each digit depend on the target's endianness
+                    for $x in &mut self.0 {
+                        for digit in $digits.iter_mut() {
+                            *digit = digit.to_le();
+                        }
                     }
                 }
                 Ok(())
@@ -318,8 +321,8 @@ macro_rules! random {
             }
         }
 
-        fill_impl!($BUint<N>);
-        fill_impl!($BInt<N>);
+        fill_impl!($BUint<N>, x => x.digits);
+        fill_impl!($BInt<N>, x => x.bits.digits);
 
         uniform_int_impl!($BUint<N>, $BUint<N>);
 
